@@ -16,3 +16,13 @@ light third-generation squarks made the two-loop constants 10x larger):
 The literal band a2L(2k)/a2L(k) in [0.2,0.35] of the quantifier is reported, not enforced: correct code leaves it at
 zero crossings of A + B ln k (21 525 of 321 000 steps) and, rarely, even without cancellation between the parts (15 of 90 798).
 """
+
+"""
+C10 (harness/c10_thdm_limits.cpp), calibration: ./vcheck C10 --scale 5 (85 691 conclusive, seed 1):
+  R = max_high K / max_low K, K = |a| M^2/(1+ln^2(M/MZ)), bands [1,3.16] and [10,31.6] TeV
+  t1 = 10    one-loop      worst observed 0.98
+  tf = 70    fermionic 2L  worst observed 5.8
+  tb = 2000  bosonic 2L    worst observed 154 (rounding noise of 10-digit cancellations at 31.6 TeV)
+  SM-limit, helper level: worst 3.4e-11 (1L), 5.2e-12 (fermionic) of max(|a|, light-Higgs term); limit 1e-9.
+C09 (harness/c09_thdm_param.cpp): see the comment at TOL_A/TOL_B/TOL_F there (6e5 pairs).
+"""
